@@ -146,7 +146,7 @@ def parse_nat_list(log, name):
 
 MB = {"INBOX": 1, "Sent": 2, "Drafts": 3, "Trash": 4, "Spam": 5}
 MBN = {v: k for k, v in MB.items()}
-CLS = {1: "examine_writes", 2: "junk_shift", 3: "junk_move", 4: "junk_noop", 5: "same_mailbox_copy"}
+CLS = {3: "junk_move"}
 CLEAN_KW = ["kw", "$Forwarded", "Work", "work", "$Label1"]
 SEARCH_KEYS = [("SEEN", "has", "\\Seen"), ("UNSEEN", "not", "\\Seen"), ("DELETED", "has", "\\Deleted"),
                ("UNDELETED", "not", "\\Deleted"), ("FLAGGED", "has", "\\Flagged"), ("UNFLAGGED", "not", "\\Flagged"),
@@ -215,8 +215,6 @@ def gen_history(rng, stream, nops):
             h.append({"k": "select", "mb": mb, "ro": want_ro})
             sel, ro = mb, want_ro
         elif r < 0.62:
-            if ro and stream != "examine":
-                continue        # sessions that opened with EXAMINE only read, outside the examine stream
             uidmode = rng.random() < 0.5
             if stream == "samecopy" and rng.random() < 0.7:
                 uidmode = False
@@ -232,7 +230,7 @@ def gen_history(rng, stream, nops):
                       "item": item, "raw": raw, "new": new, "paren": not (len(new) == 1 and rng.random() < 0.3)})
         elif r < 0.77:
             others = [m for m in MB.values() if m != sel]
-            dest = sel if (stream == "samecopy" and rng.random() < 0.7) else rng.choice(others)
+            dest = sel if rng.random() < (0.7 if stream == "samecopy" else 0.15) else rng.choice(others)
             s = gen_set(rng, cnt[sel], True)
             h.append({"k": "copy", "mb": sel, "set": s, "dest": dest})
             cnt[dest] += 1
@@ -243,14 +241,12 @@ def gen_history(rng, stream, nops):
             cnt[mb] += 1
             used.add(mb)
         else:
-            if ro and stream != "examine":
-                continue
             how = rng.choice(["EXPUNGE", "CLOSE"])
             h.append({"k": "expunge", "ro": ro, "mb": sel, "how": how})
             if how == "CLOSE":
                 h.append({"k": "select", "mb": sel, "ro": ro})
     keys = rng.sample(SEARCH_KEYS, 5)
-    kws = [rng.choice(store_pool + (["Junk", "Seen"] if stream == "twins" else [])) for _ in range(3)]
+    kws = [rng.choice(store_pool + ["Junk", "Seen", "\\Seenish", "\\seen"]) for _ in range(3)]
     keys += [("KEYWORD " + kws[0], "has", kws[0]), ("UNKEYWORD " + kws[1], "not", kws[1]), ("keyword " + kws[2], "has", kws[2])]
     return {"stream": stream, "h": h, "keys": keys, "mailboxes": sorted(used | {MB["INBOX"], MB["Spam"]})}
 
@@ -499,7 +495,7 @@ def suite_sessions(chk, body_parts, post):
         chk.sample({"suite": "sessions", "stream": sc0["stream"], "commands": describe(sc0)[:14], "final_inbox": ob0["final"][1].get("view")})
         nd = 0
         for (sc, ob), code in zip(good, codes):
-            vm, vs, qm, qs, risk, cl = code & 1, code & 2, code & 4, code & 8, code & 16, code >> 5
+            vm, vs, qm, qs, cl = code & 1, code & 2, code & 4, code & 8, code >> 5
             payload = {"suite": "sessions", "scenario": {k: sc[k] for k in ("stream", "h", "keys", "mailboxes")}, "observed": ob, "code": code,
                        "commands": describe(sc)}
             if vm and vs and qm and qs:
@@ -509,11 +505,7 @@ def suite_sessions(chk, body_parts, post):
             if not vs:
                 if cl and vm:
                     cname = CLS[cl]
-                    what = {"examine_writes": "a session that opened the mailbox with EXAMINE changed it (STORE / EXPUNGE / CLOSE are executed: ClientState has no read-only bit)",
-                            "junk_shift": "plain STORE that adds Junk/NonJunk to several messages moves each hit out of the mailbox inside the loop, so the later sequence numbers address other messages (some addressed messages are skipped, unaddressed ones are changed)",
-                            "junk_move": "STORE/UID STORE that adds Junk (NonJunk) outside Spam (INBOX) moves the message to Spam (INBOX) under a new UID and drops the other flag of the pair instead of updating it in place",
-                            "junk_noop": "STORE/UID STORE that adds Junk inside Spam (NonJunk inside INBOX) answers EXPUNGE and leaves the flags unchanged (MoveMessageToMailbox returns nil for source = destination and the UPDATE is skipped)",
-                            "same_mailbox_copy": "plain STORE updates every row with the addressed row's (message_id, mailbox_id): a copy of the message inside the same mailbox changes with it",
+                    what = {"junk_move": "STORE/UID STORE that adds Junk (NonJunk) outside Spam (INBOX) moves the message to Spam (INBOX) under a new UID and drops the other flag of the pair instead of updating it in place",
                             }[cname]
                     chk.violation(what + "; e.g. " + " | ".join(describe(sc)[-6:]), payload, cls=cname)
                 elif cl:
@@ -523,15 +515,9 @@ def suite_sessions(chk, body_parts, post):
             elif not vm:
                 chk.broken_obligation("correspondence sessions no longer checks: the implementation's flags agree with the reference semantics but not with the model; commands: %s" % " | ".join(describe(sc)), payload)
             elif not qs:
-                if risk and qm:
-                    cname = "substring_query"
-                    chk.violation("SEARCH flag keys / UNSEEN counts test the flag string by substring (strings.Contains, LIKE): a stored atom that contains the queried flag answers for it; keys %s" % [k[0] for k in sc["keys"]], payload, cls=cname)
-                elif risk:
-                    chk.violation("SEARCH by flag / UNSEEN of a later session differ from set membership AND from the model's account of the listed finding substring_query; keys %s; commands: %s" % ([k[0] for k in sc["keys"]], " | ".join(describe(sc))), payload)
-                else:
-                    chk.violation("SEARCH by flag / UNSEEN of a later session differ from set membership of the stored flags (no substring twin stored); keys %s; commands: %s" % ([k[0] for k in sc["keys"]], " | ".join(describe(sc))), payload)
+                chk.violation("SEARCH by flag / UNSEEN of a later session differ from set membership of the stored flags; keys %s; commands: %s" % ([k[0] for k in sc["keys"]], " | ".join(describe(sc))), payload)
             else:
-                chk.broken_obligation("correspondence sessions no longer checks: query answers agree with set membership but not with the model (substring tests)", payload)
+                chk.broken_obligation("correspondence sessions no longer checks: query answers agree with set membership but not with the model", payload)
             if cname:
                 chk.cov["classes_seen"][cname] = chk.cov["classes_seen"].get(cname, 0) + 1
             if sc.get("corpus") and sc.get("expect") and cname != sc["expect"]:
